@@ -670,7 +670,10 @@ impl<'a> VisitMut for Norm<'a> {
         // N4 + N2 operate on statement lists
         let old = std::mem::take(&mut b.stmts);
         let mut new: Vec<Stmt> = Vec::with_capacity(old.len());
+        let mut pending_after: Vec<Stmt> = Vec::new();
         for s in old.into_iter() {
+            // `//@ after <prefix>` markers go behind everything the anchored statement was turned into
+            new.append(&mut pending_after);
             if stmt_is_log(&s, self.desc) {
                 self.stats.bump("N4.log_stmt");
                 continue;
@@ -685,7 +688,13 @@ impl<'a> VisitMut for Norm<'a> {
             if !self.before.is_empty() {
                 let t: String = s.to_token_stream().to_string().chars().filter(|c| !c.is_whitespace()).collect();
                 for (k, pfx) in self.before.clone().iter().enumerate() {
-                    if t.starts_with(pfx.as_str()) {
+                    if let Some(apfx) = pfx.strip_prefix("AFTER:") {
+                        if t.starts_with(apfx) {
+                            let m = ident(&format!("__zx_before_{}", k));
+                            pending_after.push(parse_quote!(#m!();));
+                            self.before_hits[k] += 1;
+                        }
+                    } else if t.starts_with(pfx.as_str()) {
                         let m = ident(&format!("__zx_before_{}", k));
                         new.push(parse_quote!(#m!();));
                         self.before_hits[k] += 1;
@@ -758,6 +767,7 @@ impl<'a> VisitMut for Norm<'a> {
             }
             new.push(s);
         }
+        new.append(&mut pending_after);
         b.stmts = new;
         visit_mut::visit_block_mut(self, b);
     }
